@@ -69,6 +69,58 @@ class FakeStdin:
             self.buffer = io.BytesIO(data)
 
 
+class PipeStdin:
+    """sys.stdin stand-in backed by a real pipe (it has a file descriptor, as the real one does): a feeder thread
+    writes one chunk, waits until the reader has drained the pipe, writes the next, ... and closes.  Every read on
+    the descriptor therefore returns at most the rest of one chunk - the environment's short reads, deterministically."""
+
+    def __init__(self, data, chunks):
+        import array
+        import fcntl
+        import termios
+        import threading
+        import time
+
+        r, w = os.pipe()
+        self._r = r
+        self.buffer = open(r, "rb")
+        chunks = [min(4096, max(1, c)) for c in chunks]
+
+        def feed():
+            pos = k = 0
+            avail = array.array("i", [0])
+            try:
+                while pos < len(data):
+                    n = chunks[k % len(chunks)]
+                    k += 1
+                    os.write(w, data[pos : pos + n])
+                    pos += n
+                    deadline = time.time() + 1.0
+                    while time.time() < deadline:
+                        fcntl.ioctl(r, termios.FIONREAD, avail)
+                        if avail[0] == 0:
+                            break
+                        time.sleep(0.00005)
+            except OSError:
+                pass
+            finally:
+                try:
+                    os.close(w)
+                except OSError:
+                    pass
+
+        threading.Thread(target=feed, daemon=True).start()
+
+    def fileno(self):
+        return self._r
+
+    def close(self):
+        try:
+            self.buffer.close()
+        except OSError:
+            pass
+
+
 def compositions(total, cap=64):
     """All ways to cut `total` bytes into chunks (first `cap` of them, shortest chunks first)."""
     out = []
@@ -153,7 +205,10 @@ class SourceSys:
         elif kind.startswith("stdin"):
             old = sys.stdin
             chunks = [int(x) for x in kind.split(":")[1].split(",")] if ":" in kind else None
-            sys.stdin = FakeStdin(data, chunks)
+            if kind.startswith("stdin_fd"):
+                self.pipe = sys.stdin = PipeStdin(data, chunks or [len(data) or 1])
+            else:
+                sys.stdin = FakeStdin(data, chunks)
             self.kind = kind = "stdin"
             try:
                 self.real = aio.StdinAudioSource(SR, sw, ch)
@@ -317,6 +372,8 @@ class SourceSys:
             self.real.close()
         except Exception:
             pass
+        if getattr(self, "pipe", None) is not None:
+            self.pipe.close()
 
 
 def work(task):
@@ -580,6 +637,11 @@ def run(prop, tier):
         for (sw, ch) in FORMATS:
             for n in range(0, 7):
                 tasks.append((kind, n, sw, ch, 1 if quick else 2, 2 if quick else 3, tier))
+    # standard input that is a real pipe (with a file descriptor) delivering short pieces
+    for (sw, ch) in FORMATS:
+        for n in (1, 3, 6):
+            for c in ("1", "3", "%d,1" % (sw * ch + 1)):
+                tasks.append(("stdin_fd:" + c, n, sw, ch, 0, 2 if quick else 3, tier))
     # large contents, large reads (sizes where chunked or buffered implementations change behaviour)
     for kind in ("buffer", "raw", "wav", "stdin", "stdin:4093", "stdin:8192,1"):
         for (sw, ch) in ((2, 2), (1, 3)):
